@@ -781,7 +781,7 @@ GEN_EXPRS = [
 ]
 
 
-def run_generator_scenario(seed, wait_s=2.6):
+def run_generator_scenario(seed, max_wait_s=12.0):
     r = random.Random(seed)
     cl = Client("api,generators")
     rep = dict(seed=seed, violations=[], spawns=0, frames=0, lifecycles=0, exprs=[])
@@ -795,8 +795,22 @@ def run_generator_scenario(seed, wait_s=2.6):
         r.shuffle(names)
         for n in names[: r.choice([2, 3, 4])]:
             c = r.choice(ctxs)
-            kind = r.choices(["plain", "duplex", "nocontent", "dupname"], [5, 2, 1, 1])[0]
-            if kind == "plain":
+            kind = r.choices(["plain", "duplex", "nocontent", "dupname", "duplexonce"], [5, 2, 1, 1, 2])[0]
+            if kind == "duplexonce":
+                # the pipeline ends after one input: the NEXT instance must be fed only what is sent after ITS start
+                i = cl.append(n + ".spawn", ctx=c, body=b'each { |x| $"hi: ($x)" } | first 1', meta={"duplex": True})
+                g1 = dict(id=i, ctx=c, name=n, outs=None, kind="duplexonce", sends=[])
+                gens.append(g1)
+                st1 = cl.wait_topic(n + ".start", ctx=c, after=i or 0, timeout=5)
+                if st1:
+                    cl.append(n + ".send", ctx=c, body=f"first-{n}".encode()); g1["sends"].append(f"first-{n}")
+                    sp = cl.wait_topic(n + ".stop", ctx=c, after=st1["id"], timeout=6)
+                    st2 = cl.wait_topic(n + ".start", ctx=c, after=sp["id"], timeout=6) if sp else None
+                    if st2:
+                        cl.append("other", ctx=c)
+                        cl.append(n + ".send", ctx=c, body=f"second-{n}".encode()); g1["sends"].append(f"second-{n}")
+                        cl.wait_topic(n + ".stop", ctx=c, after=st2["id"], timeout=6)
+            elif kind == "plain":
                 expr, outs = r.choice(GEN_EXPRS)
                 i = cl.append(n + ".spawn", ctx=c, body=expr.encode())
                 gens.append(dict(id=i, ctx=c, name=n, outs=outs, kind="plain")); rep["exprs"].append(expr)
@@ -818,12 +832,20 @@ def run_generator_scenario(seed, wait_s=2.6):
         # duplex traffic interleaved with other frames
         for g in [g for g in gens if g["kind"] == "duplex"]:
             cl.wait_topic(g["name"] + ".start", ctx=g["ctx"], after=g["id"], timeout=5)
+            # Nushell's chunk reader (nu-protocol ByteStream::chunks) holds a chunk shorter than 4 bytes back until more input
+            # arrives and hands both over as ONE item: with short sends the items seen by `each` are a regrouping of the sends,
+            # so those instances are compared on the concatenation of what was fed (exactly once, in order), closed by a
+            # send of >= 4 bytes
+            g["short"] = r.random() < 0.35
             for k in range(r.choice([1, 2, 4])):
-                msg = f"m{k}-{g['name']}"
+                msg = r.choice(["a", "hi", "xyz", "é"]) if g["short"] else f"m{k}-{g['name']}"
                 cl.append(g["name"] + ".send", ctx=g["ctx"], body=msg.encode())
                 g["sends"].append(msg)
                 if r.random() < 0.5:
                     cl.append("other", ctx=r.choice(ctxs))
+            if g["short"]:
+                cl.append(g["name"] + ".send", ctx=g["ctx"], body=b"-end-")
+                g["sends"].append("-end-")
         # the same generator name in two contexts: each instance is fed only by the .send frames of its own context
         twin = None
         if len(ctxs) > 1 and r.random() < 0.7:
@@ -834,7 +856,14 @@ def run_generator_scenario(seed, wait_s=2.6):
             cl.append("twin.send", ctx=ctxs[0], body=b"for-a")
             cl.append("twin.send", ctx=ctxs[1], body=b"for-b")
             twin = (ia, ib)
-        time.sleep(wait_s)
+        # every plain generator is started again after EVERY stop: wait for three complete lifecycles of each
+        t_end = time.time() + max_wait_s
+        while time.time() < t_end:
+            fr = cl.frames()
+            if all(sum(1 for f in fr if f["topic"] == g["name"] + ".stop" and f["ctx"] == g["ctx"] and f["id"] > (g["id"] or 0)) >= 3
+                   for g in gens if g["kind"] == "plain" and g["id"]):
+                break
+            time.sleep(0.1)
         cl.settle(0.3, 5)
         fr = cl.frames()
         if twin:
@@ -859,6 +888,20 @@ def run_generator_scenario(seed, wait_s=2.6):
                     rep["violations"].append(dict(what=f"a spawn of `{g['name']}` that cannot be honoured must yield exactly one "
                                                        f"{g['name']}.spawn.error naming it; got {[o['topic'] for o in obs]}"))
                 continue
+            if g["kind"] == "duplexonce":
+                nm = g["name"]
+                want = []
+                for m in g["sends"]:
+                    want += [dict(topic=nm + ".start", ctx=g["ctx"], content=None), dict(topic=nm + ".recv", ctx=g["ctx"], content=("hi: " + m).encode()),
+                             dict(topic=nm + ".stop", ctx=g["ctx"], content=None)]
+                if len(g["sends"]) < 2:
+                    rep["violations"].append(dict(what=f"duplex generator `{nm}` (one input per instance): the instance did not stop and start again "
+                                                       f"after consuming its input; observed {[(o['topic'], o['content']) for o in obs]}"))
+                elif obs[: len(want)] != want or any(o["topic"] == nm + ".recv" for o in obs[len(want):]):
+                    rep["violations"].append(dict(
+                        what=f"duplex generator `{nm}` (one input per instance): sends {g['sends']}, one per instance; observed "
+                             f"{[(o['topic'], o['content']) for o in obs][:10]} - each instance must be fed only the sends appended while it runs, once"))
+                continue
             if g["kind"] == "plain" and not g["id"]:
                 rep["violations"].append(dict(what=f"POST /{g['name']}.spawn was not accepted"))
                 continue
@@ -875,14 +918,22 @@ def run_generator_scenario(seed, wait_s=2.6):
                     rep["violations"].append(dict(
                         what=f"generator `{g['name']}` ({g['outs']}): observed frames deviate from start, recv..., stop, start, ... at #{kx}: "
                              f"impl {str(obs[kx])[:200] if kx < len(obs) else 'nothing'} vs model {str(exp[kx])[:200] if kx < len(exp) else 'nothing'}; observed topics {[o['topic'] for o in obs][:14]}"))
-                elif n_complete < 2:
+                elif n_complete < 3:
                     rep["violations"].append(dict(
-                        what=f"generator `{g['name']}` ({g['outs']}) was not started again after its stop within {wait_s}s: only "
+                        what=f"generator `{g['name']}` ({g['outs']}) was not started again after each stop (three lifecycles) within {max_wait_s}s: only "
                              f"{[o['topic'] for o in obs]}"))
             else:
                 want = [dict(topic=g["name"] + ".start", ctx=g["ctx"], content=None)] + \
                        [dict(topic=g["name"] + ".recv", ctx=g["ctx"], content=("hi: " + m).encode()) for m in g["sends"]]
-                if obs != want:
+                if g.get("short"):
+                    fed = b"".join((o["content"] or b"")[4:] for o in obs[1:])
+                    ok = (obs[:1] == want[:1] and all(o["topic"] == g["name"] + ".recv" and o["ctx"] == g["ctx"] and (o["content"] or b"").startswith(b"hi: ")
+                                                      for o in obs[1:]) and fed == "".join(g["sends"]).encode())
+                    if not ok:
+                        rep["violations"].append(dict(
+                            what=f"duplex generator `{g['name']}`: sent {g['sends']} (short sends), the pipeline was fed "
+                                 f"{[(o['topic'], o['content']) for o in obs]} - not the sends once each, in order"))
+                elif obs != want:
                     rep["violations"].append(dict(
                         what=f"duplex generator `{g['name']}`: sent {g['sends']}, observed {[(o['topic'], o['content']) for o in obs]}"))
         return rep
